@@ -38,7 +38,7 @@ type Net struct {
 	// AutoConnect: a dial to a listening, reachable address completes at once instead of
 	// waiting for the scheduler (used in fair phases, where the network is assumed to be
 	// fast relative to connect timeouts).
-	AutoConnect bool
+	autoConnect bool
 	nextConn    map[string]int
 	// Log receives one line per network event (may be nil).
 	Log   func(kind string, attrs ...any)
@@ -142,7 +142,7 @@ func (n *Net) Dialer(client string) func(ctx context.Context, addr string) (net.
 		n.dials = append(n.dials, pd)
 		n.Stats.Dials++
 		_, up := n.listeners[addr]
-		auto := n.AutoConnect && up && !n.partitioned[client+"|"+addr]
+		auto := n.autoConnect && up && !n.partitioned[client+"|"+addr]
 		n.mu.Unlock()
 		n.log("dial", "client", client, "addr", addr, "id", pd.id)
 		if auto {
@@ -627,6 +627,20 @@ func (n *Net) ResetAllOf(addr string) int {
 		}
 	}
 	return k
+}
+
+// SetAutoConnect switches immediate completion of dials on or off.
+func (n *Net) SetAutoConnect(on bool) {
+	n.mu.Lock()
+	n.autoConnect = on
+	n.mu.Unlock()
+}
+
+// Snapshot returns a copy of the statistics.
+func (n *Net) Snapshot() Stats {
+	n.mu.Lock()
+	defer n.mu.Unlock()
+	return n.Stats
 }
 
 // PendingDials returns the number of unresolved dials of a client.
